@@ -96,3 +96,259 @@ pub fn check_multi_record() -> (usize, Option<String>) {
     }
     (tried, None)
 }
+
+// ---------------------------------------------------------------------------------------------
+// C02 / C03 / C10 bounded stand-in: the framing entry points at the boundary lengths of the record cap.
+// (Deductive decision: Verus units frame / plaintext / dtls; this stands in when a rewritten body falls outside them.)
+pub fn check_framing_boundaries() -> (usize, Option<String>) {
+    let mut tried = 0;
+    let cap = 16640usize;
+    for &l in &[0usize, 1, 2, 3, 16383, 16384, 16385, 16639, 16640, 16641, 32768, 65535] {
+        for &ty in &[0x17u8, 0x15, 0x18] {
+            let mut rec = vec![ty, 3, 3, (l >> 8) as u8, l as u8];
+            // payload: alerts are pairs (1,0); appdata anything; heartbeat: type 1, payload_len 0, padding
+            let mut payload = vec![0u8; l];
+            if ty == 0x15 { for k in 0..l { payload[k] = if k % 2 == 0 { 1 } else { 0 }; } }
+            if ty == 0x18 && l >= 3 { payload[0] = 1; }
+            rec.extend_from_slice(&payload);
+            rec.extend_from_slice(&[0xee, 0xee, 0xee]);
+            for &cut in &[0usize, 4, 5, 6, 5 + l / 2, 5 + l - 1.min(l), 5 + l, 5 + l + 3] {
+                let n = cut.min(rec.len());
+                let i = &rec[..n];
+                tried += 1;
+                let want: String = if n < 5 { "Incomplete".into() }
+                    else if l > cap { "TooLarge".into() }
+                    else if n < 5 + l { format!("Incomplete({})", 5 + l - n) }
+                    else { format!("Framed(rem={})", n - 5 - l) };
+                let cls = |r: Result<usize, Err<tls_parser::nom::error::Error<&[u8]>>>| -> String { match r {
+                    Ok(rem) => format!("Framed(rem={})", rem),
+                    Err(Err::Incomplete(tls_parser::nom::Needed::Size(k))) => if n < 5 { "Incomplete".into() } else { format!("Incomplete({})", k) },
+                    Err(Err::Incomplete(_)) => "Incomplete".into(),
+                    Err(Err::Error(e)) | Err(Err::Failure(e)) => if e.code == tls_parser::nom::error::ErrorKind::TooLarge { "TooLarge".into() } else { format!("Error({:?})", e.code) },
+                } };
+                let raw = cls(parse_tls_raw_record(i).map(|(rem, _)| rem.len()));
+                let enc = cls(parse_tls_encrypted(i).map(|(rem, _)| rem.len()));
+                if raw != want { return (tried, Some(format!("parse_tls_raw_record: declared length {} type {:#x} input length {}: {} expected {}", l, ty, n, raw, want))); }
+                if enc != want { return (tried, Some(format!("parse_tls_encrypted: declared length {} type {:#x} input length {}: {} expected {}", l, ty, n, enc, want))); }
+                // plaintext: same framing; a whole record never answers Incomplete; payload errors are content errors
+                let pt = parse_tls_plaintext(i);
+                let ptc = cls(pt.as_ref().map(|(rem, _)| rem.len()).map_err(|e| match e { Err::Incomplete(x) => Err::Incomplete(*x), Err::Error(e) => Err::Error(tls_parser::nom::error::Error { input: e.input, code: e.code }), Err::Failure(e) => Err::Failure(tls_parser::nom::error::Error { input: e.input, code: e.code }) }));
+                let framed = want.starts_with("Framed");
+                if !framed && ptc != want { return (tried, Some(format!("parse_tls_plaintext: declared length {} type {:#x} input length {}: {} expected {}", l, ty, n, ptc, want))); }
+                if framed && ptc.starts_with("Incomplete") { return (tried, Some(format!("parse_tls_plaintext answered Incomplete on a whole record (declared length {} type {:#x})", l, ty))); }
+                if framed && ptc == "TooLarge" { return (tried, Some(format!("parse_tls_plaintext rejected a record within the cap as TooLarge (declared length {} type {:#x})", l, ty))); }
+                // one-step == two-step
+                if framed {
+                    if let Ok((_, raw_rec)) = parse_tls_raw_record(i) {
+                        let two = parse_tls_record_with_header(raw_rec.data, &raw_rec.hdr);
+                        match (&pt, &two) {
+                            (Ok((_, p)), Ok((_, m))) => if format!("{:?}", p.msg) != format!("{:?}", m) { return (tried, Some(format!("one-step and two-step parsing disagree (declared length {} type {:#x})", l, ty))); },
+                            (Err(_), Err(_)) => {}
+                            _ => return (tried, Some(format!("one-step and two-step parsing disagree on acceptance (declared length {} type {:#x}): {:?} vs {:?}", l, ty, pt.is_ok(), two.is_ok()))),
+                        }
+                    }
+                }
+                #[allow(deprecated)]
+                { if format!("{:?}", tls_parser(i).map(|(r, p)| (r.len(), p.msg.len()))) != format!("{:?}", parse_tls_plaintext(i).map(|(r, p)| (r.len(), p.msg.len()))) { return (tried, Some(format!("tls_parser differs from parse_tls_plaintext (declared length {} type {:#x} input length {})", l, ty, n))); } }
+            }
+        }
+        // DTLS: 13-byte header, same cap
+        let mut rec = vec![0x15u8, 0xfe, 0xfd, 0, 1, 0, 0, 0, 0, 0, 2, (l >> 8) as u8, l as u8];
+        let mut payload = vec![0u8; l];
+        for k in 0..l { payload[k] = if k % 2 == 0 { 1 } else { 0 }; }
+        rec.extend_from_slice(&payload);
+        rec.extend_from_slice(&[0xee, 0xee]);
+        for &cut in &[0usize, 12, 13, 14, 13 + l / 2, 13 + l, 13 + l + 2] {
+            let n = cut.min(rec.len());
+            let i = &rec[..n];
+            tried += 1;
+            let r = parse_dtls_plaintext_record(i);
+            let got = match &r { Ok((rem, _)) => format!("Framed(rem={})", rem.len()),
+                Err(Err::Incomplete(tls_parser::nom::Needed::Size(k))) => if n < 13 { "Incomplete".into() } else { format!("Incomplete({})", k) },
+                Err(Err::Incomplete(_)) => "Incomplete".into(),
+                Err(Err::Error(e)) | Err(Err::Failure(e)) => if e.code == tls_parser::nom::error::ErrorKind::TooLarge { "TooLarge".into() } else { "ContentError".into() } };
+            let want: String = if n < 13 { "Incomplete".into() } else if l > cap { "TooLarge".into() } else if n < 13 + l { format!("Incomplete({})", 13 + l - n) }
+                else if l >= 2 { format!("Framed(rem={})", n - 13 - l) } else { "ContentError".into() };
+            if got != want { return (tried, Some(format!("parse_dtls_plaintext_record: declared length {} input length {}: {} expected {}", l, n, got, want))); }
+        }
+    }
+    (tried, None)
+}
+
+// ---------------------------------------------------------------------------------------------
+// C14 bounded stand-in: SCT lists of k = 0..5 well-formed entries (minimal 49-byte entries and entries with
+// extensions / signature bytes), every field pattern distinct, decoded in order with every field exact.
+pub fn check_sct_lists() -> (usize, Option<String>) {
+    use tls_parser::parse_ct_signed_certificate_timestamp_list as plist;
+    let mk = |k: u8, el: usize, sl: usize| -> Vec<u8> {
+        let mut b = vec![];
+        b.push(k);                                  // version (any value)
+        b.extend((0..32).map(|x| x as u8 ^ k));     // log id
+        b.extend_from_slice(&(0x0102030405060700u64 + k as u64).to_be_bytes());
+        b.extend_from_slice(&(el as u16).to_be_bytes());
+        b.extend((0..el).map(|x| 0xa0 + x as u8 + k));
+        b.push(4); b.push(3);
+        b.extend_from_slice(&(sl as u16).to_be_bytes());
+        b.extend((0..sl).map(|x| 0x50 + x as u8 + k));
+        let mut e = (b.len() as u16).to_be_bytes().to_vec();
+        e.extend(b);
+        e
+    };
+    let mut tried = 0;
+    for n in 0..=5usize {
+        for shape in 0..3 {
+            let entries: Vec<Vec<u8>> = (0..n).map(|k| match shape { 0 => mk(k as u8, 0, 0), 1 => mk(k as u8, 2, 3), _ => mk(k as u8, (k % 2) * 5, (k % 3) as usize) }).collect();
+            let total: usize = entries.iter().map(|e| e.len()).sum();
+            let mut buf = (total as u16).to_be_bytes().to_vec();
+            for e in &entries { buf.extend_from_slice(e); }
+            buf.extend_from_slice(&[0xee, 0xee]);
+            tried += 1;
+            match plist(&buf) {
+                Ok((rem, v)) => {
+                    if rem.len() != 2 { return (tried, Some(format!("SCT list of {} entries (shape {}): remainder {} bytes, expected 2", n, shape, rem.len()))); }
+                    if v.len() != n { return (tried, Some(format!("SCT list of {} well-formed entries (shape {}) decoded to {} SCTs", n, shape, v.len()))); }
+                    for (k, (t, e)) in v.iter().zip(entries.iter()).enumerate() {
+                        let b = &e[2..];
+                        let el = u16::from_be_bytes([b[41], b[42]]) as usize;
+                        let so = 43 + el;
+                        let sl = u16::from_be_bytes([b[so + 2], b[so + 3]]) as usize;
+                        let ok = t.version.0 == b[0] && t.id.key_id[..] == b[1..33] && t.timestamp == u64::from_be_bytes([b[33], b[34], b[35], b[36], b[37], b[38], b[39], b[40]])
+                            && t.extensions.0 == &b[43..43 + el] && t.signature.data == &b[so + 4..so + 4 + sl]
+                            && t.signature.alg.as_ref().map(|a| (a.hash.0, a.sign.0)) == Some((b[so], b[so + 1]));
+                        if !ok { return (tried, Some(format!("SCT #{} of a {}-entry list (shape {}) decoded with a wrong field: {:?}", k, n, shape, t))); }
+                    }
+                }
+                Err(e) => return (tried, Some(format!("SCT list of {} well-formed entries (shape {}) rejected: {:?}", n, shape, e))),
+            }
+        }
+    }
+    (tried, None)
+}
+
+// ---------------------------------------------------------------------------------------------
+// C09 bounded stand-in (the record / supported_groups serializers exhaust CBMC): serialize small records and
+// extension lists, check the emitted length fields, parse the bytes back completely, and re-serialize.
+pub fn check_serializer_roundtrip() -> (usize, Option<String>) {
+    use tls_parser::rusticata_macros::Serialize;
+    let random = [7u8; 32];
+    let sid = [1u8, 2, 3];
+    let ext = [0u8, 23, 0, 0];
+    let d1 = [1u8, 2];
+    let hs = |k: usize| -> TlsMessageHandshake { match k {
+        0 => TlsMessageHandshake::Finished(&d1[..0]),
+        1 => TlsMessageHandshake::Finished(&d1),
+        2 => TlsMessageHandshake::HelloRequest,
+        3 => TlsMessageHandshake::ClientKeyExchange(TlsClientKeyExchangeContents::Unknown(&d1)),
+        4 => TlsMessageHandshake::ClientKeyExchange(TlsClientKeyExchangeContents::Dh(&d1)),
+        5 => TlsMessageHandshake::ClientKeyExchange(TlsClientKeyExchangeContents::Ecdh(ECPoint { point: &d1 })),
+        6 => TlsMessageHandshake::ClientHello(TlsClientHelloContents::new(0x0303, &random, None, vec![TlsCipherSuiteID(0x2f), TlsCipherSuiteID(0xc02f)], vec![TlsCompressionID(0)], None)),
+        7 => TlsMessageHandshake::ClientHello(TlsClientHelloContents::new(0x0301, &random, Some(&sid), vec![], vec![], Some(&ext))),
+        8 => TlsMessageHandshake::ServerHello(TlsServerHelloContents::new(0x0303, &random, Some(&sid), 0x2f, 0, Some(&ext))),
+        9 => TlsMessageHandshake::ServerHello(TlsServerHelloContents::new(0x0302, &random, None, 0x35, 1, None)),
+        10 => TlsMessageHandshake::ServerHello(TlsServerHelloContents::new(0x0300, &random, None, 0x35, 0, None)),
+        _ => TlsMessageHandshake::ServerHelloV13Draft18(TlsServerHelloV13Draft18Contents { version: TlsVersion(0x7f12), random: &random, cipher: TlsCipherSuiteID(0x1301), ext: Some(&ext) }),
+    } };
+    let mut tried = 0;
+    let mut check_record = |msgs: Vec<TlsMessage>, ty: u8, what: String| -> Option<String> {
+        let rec = TlsPlaintext { hdr: TlsRecordHeader { record_type: TlsRecordType(ty), version: TlsVersion(0x0303), len: 0 }, msg: msgs };
+        let b = match rec.serialize() { Ok(b) => b, Err(e) => return Some(format!("serializing a record of {} failed: {:?}", what, e)) };
+        if b.len() < 5 || ((b[3] as usize) << 8 | b[4] as usize) != b.len() - 5 { return Some(format!("record of {}: u16 length field {:02x}{:02x} does not equal the payload length {}", what, b[3], b[4], b.len().saturating_sub(5))); }
+        match parse_tls_plaintext(&b) {
+            Ok((rem, p)) => {
+                if !rem.is_empty() { return Some(format!("record of {}: parsing the produced bytes leaves {} bytes", what, rem.len())); }
+                if p.msg.len() != rec.msg.len() { return Some(format!("record of {}: {} messages serialized, {} parsed back", what, rec.msg.len(), p.msg.len())); }
+                match p.serialize() { Ok(b2) => if b2 != b { return Some(format!("record of {}: re-serializing the parsed value gives different bytes", what)); }, Err(e) => return Some(format!("record of {}: re-serialization failed: {:?}", what, e)) }
+            }
+            Err(e) => return Some(format!("record of {}: the produced bytes do not parse back: {:?}", what, e)),
+        }
+        None
+    };
+    for a in 0..12 { for b in 0..13 {
+        tried += 1;
+        let mut msgs = vec![TlsMessage::Handshake(hs(a))];
+        if b < 12 { msgs.push(TlsMessage::Handshake(hs(b))); }
+        if let Some(d) = check_record(msgs, 0x16, format!("handshake messages #{} #{}", a, b)) { return (tried, Some(d)); }
+    } }
+    tried += 1;
+    if let Some(d) = check_record(vec![TlsMessage::ChangeCipherSpec], 0x14, "ChangeCipherSpec".into()) { return (tried, Some(d)); }
+    // handshake-level: every message parses back alone, u24 length == body length
+    for a in 0..12 {
+        tried += 1;
+        let m = hs(a);
+        let b = match m.serialize() { Ok(b) => b, Err(e) => return (tried, Some(format!("serializing handshake message #{} failed: {:?}", a, e))) };
+        let l = ((b[1] as usize) << 16) | ((b[2] as usize) << 8) | b[3] as usize;
+        if l != b.len() - 4 { return (tried, Some(format!("handshake message #{}: u24 length {} != body length {}", a, l, b.len() - 4))); }
+        match parse_tls_message_handshake(&b) { Ok((rem, _)) if rem.is_empty() => {}, other => return (tried, Some(format!("handshake message #{} does not parse back completely: {:?}", a, other.map(|(r, _)| r.len())))) }
+    }
+    // extensions
+    let name = *b"ab";
+    let exts = vec![TlsExtension::SNI(vec![(SNIType(0), &name[..]), (SNIType(7), &name[..1])]), TlsExtension::MaxFragmentLength(2), TlsExtension::EllipticCurves(vec![NamedGroup(23), NamedGroup(0xfafa)])];
+    tried += 1;
+    match cookie_factory_gen(&exts) {
+        Ok(b) => {
+            if ((b[0] as usize) << 8 | b[1] as usize) != b.len() - 2 { return (tried, Some("gen_tls_extensions: u16 block length does not equal the block's byte length".into())); }
+            match parse_tls_extensions(&b[2..]) {
+                Ok((rem, v)) => if !rem.is_empty() || v != exts { return (tried, Some(format!("gen_tls_extensions: SNI / max_fragment_length / supported_groups do not round-trip: {:?}", v))); },
+                Err(e) => return (tried, Some(format!("gen_tls_extensions output does not parse: {:?}", e))),
+            }
+        }
+        Err(e) => return (tried, Some(format!("gen_tls_extensions failed: {:?}", e))),
+    }
+    (tried, None)
+}
+
+fn cookie_factory_gen(exts: &[TlsExtension]) -> Result<Vec<u8>, GenError> {
+    cookie_factory::gen_simple(gen_tls_extensions(exts), Vec::new())
+}
+
+// ---------------------------------------------------------------------------------------------
+// C01 bounded stand-in for "Debug/Display of any returned value terminates without panic" (core::fmt is beyond
+// CBMC's budget): every public parser is run on ALL inputs of length <= 2 and on a boundary corpus of longer
+// inputs (constant / counting / zero-length-field patterns up to 48 bytes); every Ok value is formatted.
+pub fn check_debug_format() -> (usize, Option<String>) {
+    use std::panic;
+    let mut corpus: Vec<Vec<u8>> = vec![vec![]];
+    for a in 0..=255u8 { corpus.push(vec![a]); }
+    for a in 0..=255u8 { for b in 0..=255u8 { corpus.push(vec![a, b]); } }
+    for len in 3..=48usize {
+        corpus.push(vec![0u8; len]);
+        corpus.push(vec![1u8; len]);
+        corpus.push((0..len).map(|k| k as u8).collect());
+        let mut v = vec![0u8; len]; v[len - 1] = 1; corpus.push(v);
+        let mut v = vec![0u8; len]; v[0] = 3; corpus.push(v.clone()); v[0] = 1; corpus.push(v);
+    }
+    macro_rules! fmt_all {
+        ($tried:ident, $name:literal, $f:expr) => {
+            for inp in corpus.iter() {
+                $tried += 1;
+                let i: &[u8] = inp;
+                let r = panic::catch_unwind(|| { if let Ok((_, v)) = ($f)(i) { let s = format!("{:?}", v); s.len() } else { 0 } });
+                if r.is_err() { return ($tried, Some(format!("{}: formatting (or parsing) panicked on input {:02x?}", $name, inp))); }
+            }
+        };
+    }
+    let mut tried = 0usize;
+    fmt_all!(tried, "parse_dh_params", parse_dh_params);
+    fmt_all!(tried, "parse_ecdh_params", parse_ecdh_params);
+    fmt_all!(tried, "parse_ec_parameters", parse_ec_parameters);
+    fmt_all!(tried, "parse_digitally_signed", parse_digitally_signed);
+    fmt_all!(tried, "parse_digitally_signed_old", parse_digitally_signed_old);
+    fmt_all!(tried, "parse_tls_plaintext", parse_tls_plaintext);
+    fmt_all!(tried, "parse_tls_encrypted", parse_tls_encrypted);
+    fmt_all!(tried, "parse_tls_raw_record", parse_tls_raw_record);
+    fmt_all!(tried, "parse_tls_message_handshake", parse_tls_message_handshake);
+    fmt_all!(tried, "parse_tls_handshake_client_hello", parse_tls_handshake_client_hello);
+    fmt_all!(tried, "parse_tls_handshake_server_hello", parse_tls_handshake_server_hello);
+    fmt_all!(tried, "parse_tls_handshake_msg_certificate", parse_tls_handshake_msg_certificate);
+    fmt_all!(tried, "parse_tls_handshake_msg_certificaterequest", parse_tls_handshake_msg_certificaterequest);
+    fmt_all!(tried, "parse_tls_extension", parse_tls_extension);
+    fmt_all!(tried, "parse_tls_extensions", parse_tls_extensions);
+    fmt_all!(tried, "parse_tls_client_hello_extensions", parse_tls_client_hello_extensions);
+    fmt_all!(tried, "parse_tls_server_hello_extensions", parse_tls_server_hello_extensions);
+    fmt_all!(tried, "parse_dtls_plaintext_record", parse_dtls_plaintext_record);
+    fmt_all!(tried, "parse_dtls_message_handshake", parse_dtls_message_handshake);
+    fmt_all!(tried, "parse_dtls_record_header", parse_dtls_record_header);
+    fmt_all!(tried, "parse_ct_signed_certificate_timestamp_list", parse_ct_signed_certificate_timestamp_list);
+    fmt_all!(tried, "parse_ct_signed_certificate_timestamp", parse_ct_signed_certificate_timestamp);
+    (tried, None)
+}
